@@ -3,6 +3,8 @@ import Revm.Proofs.EvmStep2Copy
 import Revm.Proofs.EvmStep2Halt
 import Revm.Proofs.EvmStep2Host
 import Revm.Proofs.EvmStep2State
+import Revm.Proofs.EvmStep2Outcome
+import Revm.Proofs.EvmStep2Table
 /-! C01, continued — `step_*_agrees` for the instruction families that `Props/C01.lean` leaves open: memory, copy,
 frame-ending, KECCAK256 / LOG, state-touching host instructions and the CALL / CREATE family.
 
@@ -198,5 +200,116 @@ example : ((afterAnswer { original := 1, present := 1, new := 0, isCold := true 
       (sstoreRule .london { IState.init [0x55] [] 10000 false 12 0xcc 0 0 {} with stack := [0, 5] })).bind
         fun d => match d with | .next s' => some (s'.gas.remaining, s'.gas.refunded) | _ => none) =
     some (5000, 4800) := by decide +kernel
+
+/-- BLOBHASH (EIP-4844) -/
+theorem step_blobhash_agrees (s : IState) (hcode : s.code[s.pc]? = some 0x49) (hwf : WFM s) :
+    step s = .pure (blobhashRule s) := Proofs.EvmStep2.step_blobhash s hcode hwf
+
+/-! ## (f) CALL, CALLCODE, DELEGATECALL, STATICCALL, CREATE, CREATE2 and the re-entry of the child's result
+(`Spec/EvmRules2Call.lean`)
+
+Stack effect, expansion for the in- and out-range (`callMem`), the question `loadAccountDelegated to`, then from the
+answer: `Spec.GasCalc.callCost` (cold / warm, EIP-7702 delegate, `G_callvalue`, `G_newaccount` per EIP-161), the gas
+forwarded (`forwardedGas`: all but one 64th from EIP-150, capped by the request), the 2300 stipend with value, and every
+field of the emitted `CallInputs` / `CreateInputs`. -/
+
+theorem step_call_agrees (f : Fork) (s : IState) (hcode : s.code[s.pc]? = some 0xf1) (hwf : WFM s)
+    (hf : s.spec = f.id) : step s = callRule f s := Proofs.EvmStep2.step_call f s hcode hwf hf
+
+theorem step_callcode_agrees (f : Fork) (s : IState) (hcode : s.code[s.pc]? = some 0xf2) (hwf : WFM s)
+    (hf : s.spec = f.id) : step s = callcodeRule f s := Proofs.EvmStep2.step_callcode f s hcode hwf hf
+
+/-- DELEGATECALL (EIP-7, Homestead) -/
+theorem step_delegatecall_agrees (f : Fork) (s : IState) (hcode : s.code[s.pc]? = some 0xf4) (hwf : WFM s)
+    (hf : s.spec = f.id) : step s = delegatecallRule f s := Proofs.EvmStep2.step_delegatecall f s hcode hwf hf
+
+/-- STATICCALL (EIP-214, Byzantium) -/
+theorem step_staticcall_agrees (f : Fork) (s : IState) (hcode : s.code[s.pc]? = some 0xfa) (hwf : WFM s)
+    (hf : s.spec = f.id) : step s = staticcallRule f s := Proofs.EvmStep2.step_staticcall f s hcode hwf hf
+
+/-- CREATE: static context, EIP-3860 limit and word cost, expansion, `G_create`, all but one 64th to the child -/
+theorem step_create_agrees (f : Fork) (s : IState) (hcode : s.code[s.pc]? = some 0xf0) (hwf : WFM s)
+    (hf : s.spec = f.id) : step s = .pure (createRule f false s) := Proofs.EvmStep2.step_create f s hcode hwf hf
+
+/-- CREATE2 (EIP-1014; the instruction table gates it on Petersburg — Constantinople is executed as Petersburg):
+`G_create + 6 · ⌈len / 32⌉`, the salt popped last -/
+theorem step_create2_agrees (f : Fork) (s : IState) (hcode : s.code[s.pc]? = some 0xf5) (hwf : WFM s)
+    (hf : s.spec = f.id) : step s = .pure (createRule f true s) := Proofs.EvmStep2.step_create2 f s hcode hwf hf
+
+/-- re-entry after a call: return-data buffer := output; `min(window, |output|)` bytes written at `retStart` for a normal
+end and for a revert; unused gas given back for those two, the refund counter added for a normal end only (`settle`,
+unbounded arithmetic); status word pushed. Hypotheses that hold at re-entry: the out-range was made addressable by the
+CALL, the child returns at most what it was given (+ stipend), its refund counter is bounded, the CALL popped its operands -/
+theorem insert_call_outcome_agrees (retStart retEnd : Nat) (o : ChildResult) (s : IState) (hwf : WFM s)
+    (hwin : retStart < retEnd → retEnd ≤ (memOf s).length)
+    (hgas : o.gasRemaining + s.gas.remaining < U64)
+    (href : -(2^62 : Int) ≤ o.gasRefunded ∧ o.gasRefunded < 2^62)
+    (hdepth : s.stack.length < 1024) :
+    (insertCallOutcome retStart retEnd o s).toDone = insertCallOutcomeRule retStart retEnd o s :=
+  Proofs.EvmStep2.insertCallOutcome_agrees retStart retEnd o s hwf hwin hgas href hdepth
+
+/-- re-entry after a create: the created address (or 0) pushed; the return-data buffer holds the output only of a
+reverted creation -/
+theorem insert_create_outcome_agrees (o : ChildResult) (s : IState) (hwf : WFM s)
+    (hgas : o.gasRemaining + s.gas.remaining < U64)
+    (href : -(2^62 : Int) ≤ o.gasRefunded ∧ o.gasRefunded < 2^62)
+    (hdepth : s.stack.length < 1024) :
+    (insertCreateOutcome o s).toDone = insertCreateOutcomeRule o s :=
+  Proofs.EvmStep2.insertCreateOutcome_agrees o s hwf hgas href hdepth
+
+/-- the hypotheses are satisfiable: a frame with 1000 gas left and one word of memory re-entered by a child that
+returned 3 bytes, 500 unused gas and a refund of 4800 into the window [0, 2) -/
+example : ∃ (s : IState) (o : ChildResult), WFM s ∧ ((0 : Nat) < 2 → 2 ≤ (memOf s).length) ∧
+    o.gasRemaining + s.gas.remaining < U64 ∧ (-(2^62 : Int) ≤ o.gasRefunded ∧ o.gasRefunded < 2^62) ∧
+    s.stack.length < 1024 :=
+  ⟨{ IState.init [0xf1, 0x00] [] 1000 false 17 0 0 0 {} with
+       pc := 1, mem := { buffer := List.replicate 32 0, checkpoints := [], lastCheckpoint := 0 } },
+   { result := .Return, output := [1, 2, 3], gasRemaining := 500, gasRefunded := 4800 },
+   ⟨⟨by decide, by decide, by decide⟩, ⟨trivial, rfl, by decide⟩, by decide, by decide, by decide, by decide, by decide,
+    by decide⟩, by decide, by decide, by decide, by decide⟩
+
+/-- what an example looks at in an emitted call: gas left in the caller, the child's gas limit, input, return window -/
+def viewCall : Done → Option (Nat × Nat × List Nat × Nat × Nat)
+  | .action (.call i) s => some (s.gas.remaining, i.gasLimit, i.input, i.retStart, i.retEnd)
+  | _ => none
+
+/-- CALL under Cancun with value 1 to a warm existing account, requesting all gas, 100000 left: access 100 + value 9000,
+63/64 of the remaining 90900 = 89480 forwarded, the child gets 89480 + 2300 -/
+example : ((afterAnswer { isCold := false, isEmpty := false }
+      (callRule .cancun { IState.init [0xf1] [] 100000 false 17 0xcc 0 0 {} with
+        stack := [0, 0, 0, 0, 1, 0xdd, 2^64] })).bind viewCall) =
+    some (1420, 91780, [], 2^64 - 1, 2^64 - 1) := by decide +kernel
+
+/-! ## the summary: every opcode byte
+
+`Spec/EvmRules2Table.lean` lists the opcode bytes of legacy code row by row (`ruleTable`): the 24 word operations and the
+18 environment reads of `Props.C01`, EXP, DIFFICULTY, POP, PUSH0, PUSH1-32, DUP1-16, SWAP1-16, JUMP, JUMPI, JUMPDEST,
+SLOAD, TLOAD, and the rows of this file: memory, copy, frame end, KECCAK256, LOG0-4, the state instructions, BLOBHASH, the
+CALL / CREATE family and the EOF-only bytes (which end a legacy frame). -/
+
+open Revm.Proofs.EvmStep2 (OkAnswer)
+
+/-- no opcode byte has two rows: a byte is covered by at most one rule family -/
+theorem rows_disjoint : ruleTable.Pairwise (fun a b => a.hi < b.lo ∨ b.hi < a.lo) := Proofs.EvmStep2.rows_disjoint
+
+/-- the bytes without a row — exactly the bytes that name no instruction up to Prague
+(0x0c-0x0f, 0x1e-0x1f, 0x21-0x2f, 0x4b-0x4f, 0xa5-0xcf, 0xd4-0xdf, 0xe9-0xeb, 0xed, 0xef, 0xf6, 0xfc) -/
+theorem unassigned_bytes :
+    (List.range 256).filter (fun op => (lookup op).isNone) =
+      List.range' 0x0c 4 ++ List.range' 0x1e 2 ++ List.range' 0x21 15 ++ List.range' 0x4b 5 ++ List.range' 0xa5 43 ++
+      List.range' 0xd4 12 ++ [0xe9, 0xea, 0xeb, 0xed, 0xef, 0xf6, 0xfc] := Proofs.EvmStep2.unassigned_list
+
+/-- `step_agrees_all_modelled`: for EVERY opcode byte, on every well-formed legacy state of every named fork,
+`Interp.step` agrees with the rule of the byte's (unique) row, and with `OpcodeNotFound` for a byte without a row. No
+legacy opcode remains without a rule. Agreement (`AgreeOn`) is equality of the outcome — for a host instruction the same
+question and the same continuation — where only EXTCODECOPY's continuation is compared on answers whose code is a byte
+slice (`≤ isize::MAX` bytes). -/
+theorem step_agrees_all_modelled (f : Fork) (s : IState) (op : Nat) (hop : op < 256)
+    (hcode : s.code[s.pc]? = some op) (hwf : WFM s) (hf : s.spec = f.id) (hl : Legacy s) :
+    AgreeOn OkAnswer (step s) (ruleOf f op s) := Proofs.EvmStep2.step_agrees_all f s op hop hcode hwf hf hl
+
+/-- the hypotheses are satisfiable for every opcode byte: a one-instruction Cancun frame -/
+example (op : Nat) (_hop : op < 256) : ∃ s : IState, s.code[s.pc]? = some op ∧ s.spec = Fork.cancun.id ∧ Legacy s :=
+  ⟨IState.init [op] [] 100000 false 17 0 0 0 {}, by simp [IState.init, Jump.pad], rfl, rfl, rfl⟩
 
 end Revm.Props.C01Rules
